@@ -118,4 +118,16 @@ PROPS = {
         trusted=['T3 BTreeMap as a sequential map; AtomicU64 as an opaque cell whose loads are unconstrained and whose compare_exchange is capability-guarded',
                  'T8 the caller holds the write lock on the inode map (forget_one takes &mut InodeStore)'],
     ),
+    'C04': dict(
+        vx_units=['iobuffers', 'fusedevw'], kx=[],
+        design_ref='DESIGN.md section 5, C04',
+        not_covered=[
+            'IoBuffers::{available_bytes, split_at, allocate_file_volatile_slice, mark_dirty} (iterator fold / position with a mutating closure, VecDeque iteration): allocate_file_volatile_slice is an ASSUMED contract of consume',
+            'Reader::{read, read_obj, read_to*} and VirtioFsWriter::{write, write_from_at, split_at, commit}: copy_nonoverlapping / MaybeUninit / raw pointers (unsafe), descriptor chain -> slices',
+            'FuseDevWriter::{split_at, account_written, write, write_vectored, write_from*}: unsafe from_raw_parts / set_len or closures capturing &mut self / iterator adapters in the same function',
+            'file-buffer adapters (FileVolatileSlice) as plain views: KX harnesses (see units kx:file_buf when listed), lengths up to the stated bound only',
+        ],
+        trusted=['T3 vm_memory::VolatileSlice as (address, length) with offset() as documented, ranges do not wrap the address space; VecDeque via vstd',
+                 'T5 nix write/writev as opaque device writes guarded by a capability'],
+    ),
 }
